@@ -125,7 +125,8 @@ impl ZipIntVec {
     #[inline]
     pub fn set(&mut self, idx: usize, val: usize) {
         assert!(val >= self.min_val, "Value {} below minimum {}", val, self.min_val);
-        let max_val = self.min_val + self.inner.uintmask();
+        // min_val + uintmask may exceed usize::MAX when min_val is near the top of the range
+        let max_val = self.min_val.saturating_add(self.inner.uintmask());
         assert!(val <= max_val, "Value {} exceeds maximum {}", val, max_val);
         self.inner.set(idx, val - self.min_val);
     }
@@ -154,8 +155,12 @@ impl ZipIntVec {
         let &max_val = src.iter().max().unwrap();
 
         if min_val == max_val {
-            // All values are the same
-            let mut vec = Self::new(src.len(), min_val, min_val + 1);
+            // All values are the same: one bit per element, every offset 0
+            // (not Self::new(len, min_val, min_val + 1): min_val + 1 overflows for usize::MAX)
+            let mut vec = Self {
+                inner: UintVecMin0::new(src.len(), 1),
+                min_val,
+            };
             for i in 0..src.len() {
                 vec.set(i, min_val);
             }
@@ -182,7 +187,7 @@ impl ZipIntVec {
 
         if min_val == max_val {
             // All values are the same
-            let mut vec = Self::new(src.len(), min_val as usize, (min_val + 1) as usize);
+            let mut vec = Self::new(src.len(), min_val as usize, min_val as usize + 1);
             for i in 0..src.len() {
                 vec.set(i, min_val as usize);
             }
@@ -267,7 +272,7 @@ impl ZipIntVec {
     /// Get maximum value that can be stored
     #[inline]
     pub fn max_val(&self) -> usize {
-        self.min_val + self.inner.uintmask()
+        self.min_val.saturating_add(self.inner.uintmask())
     }
 
     /// Get underlying byte data
